@@ -279,11 +279,42 @@ def run(R, ctx):
         note="add / add-learner / promote / remove events through ProposeConfChange + ApplyConfChange; not replayed on the model (outside the proved fragment), "
              "only the safety predicates are evaluated on the RawNodes")
     R.evaluations += len(sd)
+    # ---- Stage D, protocol level: the configuration part of Raft/RSC.lean against RawNode (CF / GT / HP lines of the member-* schedules)
+    tie = {k: summ.get(k, 0) for k in summ if k.startswith("d:CF") or k.startswith("d:GT") or k.startswith("d:HP")}
+    tie_lines = [l for l in lines if l[:3] in ("CF ", "GT ", "HP ")]
+    tie_mism = [m for m in mism if " CF " in m or " GT " in m or " HP " in m]
+    n_tie = tie.get("d:CF", 0) + tie.get("d:GT", 0) + tie.get("d:HP", 0)
+    R.oblige("Stage D tie: on membership schedules RawNode = RSC on every applied conf change (tracker voters/learners = RSC.applyChange), every "
+             "conf-change proposal stepped on a leader (appended as conf change or replaced by an empty entry, new pendingConfIndex = RSC.gateSeq) "
+             "and every Campaign() (campaigns iff RSC.campaignGate: not leader, voter of its own config, no conf change in (applied, committed])",
+             "correspondence", not tie_mism and n_tie == len(tie_lines) and (n_tie > 0 or not sd),
+             "%d lines judged of %d, %d mismatches" % (n_tie, len(tie_lines), len(tie_mism)))
+    ctl_t = []
+    for l in tie_lines:
+        f = l.split(" ")
+        if f[0] == "HP" and len(ctl_t) < 12:
+            f[-1] = "0" if f[-1] == "1" else "1"
+            ctl_t.append(" ".join(f))
+        elif f[0] == "GT" and len(ctl_t) < 24 and f[6] != "-":
+            f[6] = "".join("0" if c == "1" else "1" for c in f[6])
+            ctl_t.append(" ".join(f))
+    if ctl_t:
+        dct = run_raft_driver(ctl_t)
+        hit_t = len(dct["mismatches"])
+        R.oblige("negative control Stage D tie: the driver objects to damaged campaign / gate outcomes (%d lines damaged, %d objections)" % (len(ctl_t), hit_t),
+                 "control", hit_t >= len(ctl_t), "%d of %d" % (hit_t, len(ctl_t)))
+        R.extra.setdefault("negative_control", {})["stageD_tie"] = dict(damaged=len(ctl_t), reported=hit_t)
+    R.extra["stageD_protocol_tie"] = dict(lines=n_tie, by_kind=tie, mismatches=len(tie_mism),
+        note="CF: one applied conf-change entry moves the node's tracker config as RSC.applyChange (the fold step of RSC.cfgAt); GT: the proposal gate "
+             "(RSC.gateSeq / RSC.gate, pendingConfIndex read by reflection); HP: the campaign gate (RSC.campaignGate). The safety theorems RSC.C15_conf_holds are "
+             "about the model whose configuration part is compared here; the rest of the membership schedules is still judged by the safety predicates only")
+    R.evaluations += n_tie
     R.extra["model_inputs_by_kind"] = {k[3:]: v for k, v in summ.items() if k.startswith("in-")}
     R.extra["model_branch_coverage"] = {k[3:]: v for k, v in sorted(summ.items()) if k.startswith("br:")}
     R.extra["messages_checked"] = summ.get("messages", 0)
-    R.extra["outside_lockstep"] = ["membership changes (Stage D): not generated by the lock-step scheduler; the quorum / confchange layer they rest on is "
-                                   "tied separately (suite quorum+confchange)", "ReadIndex, leader transfer, PreVote, CheckQuorum "
+    R.extra["outside_lockstep"] = ["membership changes (Stage D): whole schedules are not replayed on a model; the quorum / confchange layer is tied separately "
+                                   "(suite quorum+confchange) and the configuration part of Raft/RSC.lean (config after an applied conf change, proposal gate, "
+                                   "campaign gate) by the CF / GT / HP lines (stageD_protocol_tie)", "ReadIndex, leader transfer, PreVote, CheckQuorum "
                                    "(off in raftexample's Config)", "which MsgApp slice is sent when (Progress/inflights/probing/RejectHint): any valid slice "
                                    "is accepted (leaderOut)"]
 
